@@ -70,7 +70,11 @@ func (b *baseCockpit) add(t *task.Task) {
 		go func() {
 			<-b.closeCh
 			b.smu.Lock()
-			b.spinner.Stop()
+			// like in remove, a stopped spinner is dropped: a later target starts a fresh one
+			if b.spinner != nil {
+				b.spinner.Stop()
+				b.spinner = nil
+			}
 			b.smu.Unlock()
 		}()
 	}
